@@ -465,12 +465,13 @@ fn run_fmt6_10_0(ctx: &Ctx) {
 fn run_fmt2(ctx: &Ctx) {
     const E: [u16; 3] = [0, 4, 0xFFFF];
     let s = explore_par(0, 2, |c: &mut Chooser<'_>| {
-        let sfirst = *c.of(&[0u8, 0x20, 0x7E]);
+        // (0xFE + 2 entries: the one-byte range ends at byte 0xFF, the last value the high-byte loop has to visit)
+        let sfirst = *c.of(&[0u8, 0x20, 0x7E, 0xFE]);
         let sn = 1 + c.pick(2);
         let single = Sub2 { first: sfirst, delta: *c.of(&[0i16, 3, -1]), entries: (0..sn).map(|_| *c.of(&E)).collect() };
         let nlead = c.pick(3);
         let mut leads: Vec<(u8, Sub2)> = Vec::new();
-        let lead_bytes = [0x81u8, 0xA1, 0xFE];
+        let lead_bytes = [0x81u8, 0xA1, 0xFF];
         for k in 0..nlead {
             // 0x40 / 0xA1 / 0xFE, or a range that starts at the lead byte itself (then the one-byte code equal to the
             // lead byte, which is not a valid code, has a non-zero entry under that lead's own sub-header)
